@@ -586,7 +586,7 @@ class implicitmodel(timemodel):
         """
         raise NotImplementedError("not implemented: virtual implicit class")
 
-    def calc_jacobian(self, field, epsdiff=1.0e-6):
+    def calc_jacobian(self, field, epsdiff=1.0):
         """jacobian matrix dR/dQ of dQ/dt=R(Q) is computed as successive columns by finite difference of R(Q+dQ)
             ordering is ncell x neq (neq is the fast index)
 
@@ -606,6 +606,8 @@ class implicitmodel(timemodel):
             epsdiff * math.sqrt(np.spacing(1.0)) * np.sum(np.abs(q)) / field.nelem
             for q in field.data
         ]
+        epsmax = max(eps) # a component which is identically zero needs a non zero perturbation
+        eps = [ e if e > 0. else (epsmax if epsmax > 0. else epsdiff * math.sqrt(np.spacing(1.0))) for e in eps ]
         self.calcrhs(field)
         refrhs = [qf.copy() for qf in self.residual]
         for i in range(field.nelem):  # for all variables (nelem*neq)
